@@ -352,8 +352,9 @@ class _DocumentNav:
             return value
 
         # If it's a byte string, convert it to Unicode, treating it as UTF-8.
+        # Bytes that are not valid UTF-8 become the replacement character.
         if isinstance(value, bytes):
-            return value.decode("utf8")
+            return value.decode("utf8", "replace")
 
         # BeautifulSoup supports sequences of attribute values, so make sure the children are strings.
         if isinstance(value, Sequence):
